@@ -66,7 +66,14 @@ fn tier_scale(ctx: &Ctx, quick: u64, thorough: u64) -> u64 {
 pub fn run(ctx: &mut Ctx) {
     let prop = ctx.prop.clone();
     match prop.as_str() {
-        "C01" | "C02" | "C03" | "C04" | "C05" | "C07" | "C15" => lane_history(ctx),
+        "C02" | "C03" | "C04" => {
+            let b = ctx.budget_s;
+            ctx.budget_s = b * 0.5;
+            lane_trees(ctx);
+            ctx.budget_s = b;
+            lane_history(ctx);
+        }
+        "C01" | "C05" | "C07" | "C15" => lane_history(ctx),
         "C20" => {
             let b = ctx.budget_s;
             ctx.budget_s = b * 0.7;
@@ -321,5 +328,100 @@ fn lane_history_upgrades(ctx: &mut Ctx) {
                 }
             }
         }
+    }
+}
+
+/// Exhaustive family for C02/C03/C04: every rooted tree with up to N non-root blocks in every
+/// arrival order (parent vectors p[i] in 0..i), every difficulty assignment over {1,2,3}, thresholds 1..3.
+fn lane_trees(ctx: &mut Ctx) {
+    let nmax: u32 = if ctx.tier == Tier::Quick { 4 } else { 5 };
+    // sizes of the sub-families
+    let mut fam: Vec<(u32, u64)> = vec![];
+    let mut total: u64 = 0;
+    for n in 1..=nmax {
+        let fact: u64 = (1..=n as u64).product();
+        let size = fact * 3u64.pow(n) * 3;
+        fam.push((n, size));
+        total += size;
+    }
+    let mut complete = true;
+    for k in ctx.cases("trees", total) {
+        if !ctx.time_left() {
+            complete = false;
+            break;
+        }
+        ctx.begin("trees", k);
+        // decode k
+        let mut rest = k;
+        let mut n = 1;
+        for (nn, size) in fam.iter() {
+            if rest < *size {
+                n = *nn;
+                break;
+            }
+            rest -= *size;
+        }
+        let thr = (rest % 3) as u32 + 1;
+        rest /= 3;
+        let mut diffs = vec![];
+        for _ in 0..n {
+            diffs.push((rest % 3) as u128 + 1);
+            rest /= 3;
+        }
+        // parent vector: p[i] in 0..=i (0 = root, j = block j)
+        let mut parents = vec![];
+        for i in 0..n as u64 {
+            parents.push((rest % (i + 1)) as usize);
+            rest /= i + 1;
+        }
+        let net = [Network::Regtest, Network::Mainnet, Network::Testnet][(k % 3) as usize];
+        let cfg = HistCfg {
+            net,
+            path: if net == Network::Regtest { Path::Insert } else { Path::Push },
+            threshold: thr,
+            n_each: 1,
+            max_txs: 1,
+            fork_pct: 0,
+            palette: Palette::One,
+            fanout_pct: 0,
+            share_pct: 0,
+            lazy_fees: true,
+            sync_gate: false,
+            ingest_pct: 100,
+            fee_txs: true,
+        };
+        let mut h = Hist::new(cfg, Rng::derive(&[ctx.seed, fp_str("trees"), k]));
+        h.report_c03 = ctx.prop == "C03";
+        let mut hashes: Vec<crate::parse::H> = vec![h.model.anchor];
+        for i in 0..n as usize {
+            let parent = hashes[parents[i]];
+            // the parent may have been stabilised or discarded already
+            if !h.model.is_live(&parent) {
+                break;
+            }
+            let b = h.gen_block(&parent);
+            match h.deliver(b, diffs[i], ctx) {
+                Some(hh) => hashes.push(hh),
+                None => break,
+            }
+            if !h.opportunity(ctx) {
+                break;
+            }
+            match ctx.prop.as_str() {
+                "C02" => mon::check_c02(&mut h, ctx),
+                "C04" => mon::check_c04(&mut h, ctx, Some(3), 2),
+                _ => {}
+            }
+        }
+        ctx.cov.count("exhaustive_tree_cases");
+        if let Some(d) = &h.desync {
+            if ctx.cov.violations.iter().all(|v| v.case != k || v.lane != "trees") {
+                ctx.inconclusive(format!("tree case abandoned: {}", d));
+            }
+        }
+    }
+    if ctx.only_case.is_none() {
+        ctx.cov.exhaustive = Some(complete);
+        ctx.cov.add("exhaustive_tree_family_size", if ctx.shard == 0 { total } else { 0 });
     }
 }
